@@ -28,6 +28,24 @@ CORPUS = [
 ]
 
 
+def _calls_after_continue():
+    """the value of a call is the value its body RETURNs whatever the loop state at the call site: user procedures called from the
+    condition of a REPEAT UNTIL directly after a pass that ended in CONTINUE (at several block depths), from inside another
+    procedure's loop, and as part of a larger condition"""
+    out = []
+    for cont in ("CONTINUE", "{\nCONTINUE\n}", "IF (TRUE) {\n{\nCONTINUE\n}\n}"):
+        for cond in ("reached(i, 3)", "val(i) + 1 > 3", "NOT (val(i) < 3)", "val(val(i)) >= 3 AND reached(i, 3)"):
+            body = "i <- i + 1\nIF (i MOD 2 == 1) {\n%s\n}\nDISPLAY(\"even \" + i)\n" % cont
+            decl = ("PROCEDURE reached(n, limit) {\nDISPLAY(\"check \" + n)\nRETURN n >= limit\n}\n"
+                    "PROCEDURE val(n) {\nw <- n\nIF (w > 100) {\nRETURN 0\n}\nRETURN w\n}\n")
+            out.append(decl + "i <- 0\nREPEAT UNTIL (%s) {\n%s}\nDISPLAY(\"done at \" + i)\n" % (cond, body))
+            out.append(decl + "PROCEDURE run(i) {\nREPEAT UNTIL (%s) {\n%s}\nRETURN i\n}\nDISPLAY(run(0))\nDISPLAY(run(1))\n" % (cond, body))
+    return out
+
+
+CORPUS = CORPUS + _calls_after_continue()
+
+
 class PROP(c02.PROP):
     id = "C03"
     audit_modules = ["C03"]
@@ -42,7 +60,8 @@ class PROP(c02.PROP):
     rule = ("random programs with up to ~4 procedures of 0-3 parameters (parameter / local / global name collisions in both directions), "
             "calls nested in arbitrary expressions, direct and mutual recursion bounded by a depth parameter, RETURN (with and without a "
             "value) at every statement position inside nested IFs and the three loop forms and followed by trace statements, wrong argument "
-            "counts (-1, +1) and undefined names, procedures declared after use and redeclared; run by the implementation, the implementation "
+            "counts (-1, +1) and undefined names, procedures declared after use and redeclared, a fixed family of user procedures called from "
+            "the condition of a REPEAT UNTIL right after a CONTINUE pass; run by the implementation, the implementation "
             "model and the reference semantics. non-trivial = distinct program that declares and calls at least one procedure")
 
     def corpus(self):
